@@ -24,11 +24,53 @@ N = {"quick": 600, "thorough": 9500}
 
 
 def plan(tier, seed):
-    return [{"n": N[tier]} for _ in range(16)] + [{"kind": "threads", "rounds": 3 if tier == "quick" else 40}]
+    return [{"n": N[tier]} for _ in range(16)] + [{"kind": "threads", "rounds": 8 if tier == "quick" else 60}]
+
+
+def crc32_collision(ctx) -> None:
+    """Two different Kamstrup lists of equal length whose CRC-32 (and Adler-32 is covered by chance) coincide, decoded one after
+    the other, body and frame: each must come back with its own values (a result memo keyed by a digest would return the first)."""
+    import struct
+    import zlib
+
+    from han import kamstrup
+
+    from vf.ref import cosem_enc as ce
+
+    rng = ctx.rng("crc32")
+    pre = ce.kamstrup_body("Kamstrup_V0001", [((1, 1, 0, 0, 5, 255), ce.visible_string("5706567000000000")), ((1, 1, 96, 1, 1, 255), ce.visible_string("6841121BN243101040"))])
+    pre = bytes((2, 9)) + pre[2:] + ce.obis_field((1, 1, 1, 7, 0, 255)) + b"\x06"
+    mid = ce.obis_field((1, 1, 31, 7, 0, 255)) + b"\x06"
+    seen = {}
+    pair = None
+    base = zlib.crc32(pre)
+    for n in range(1 << 19):
+        a, b = rng.getrandbits(32), rng.getrandbits(32)
+        tail = struct.pack(">I", a) + mid + struct.pack(">I", b)
+        c = zlib.crc32(tail, base)
+        if c in seen and seen[c] != (a, b):
+            pair = (seen[c], (a, b))
+            break
+        seen[c] = (a, b)
+    if pair is None:
+        ctx.count("crc32_collision_search_failed")
+        return
+    ctx.count("crc32_collision_pairs")
+    dt12 = ce.datetime12(2026, 9, 28, 1, 12, 0, 0, None, None, 0)
+    for (a, b) in pair:
+        body = pre + struct.pack(">I", a) + mid + struct.pack(">I", b)
+        for form, fn, data in (("body", kamstrup.decode_notification_body, body), ("frame", kamstrup.decode_frame_content, ce.apdu(body, dt12, True, b"\x00\x00\x00\x00"))):
+            got = fn(data)
+            if got.get("active_power_import") != a or abs(got.get("current_l1", -1) - b / 100) > 1e-6 * max(1, b):
+                ctx.violation(f"C09:{form}:value-of-another-list", f"list with P14={a}, IL1={b} decoded to P14={got.get('active_power_import')}, IL1={got.get('current_l1')} (the previous list had the same length and CRC-32)",
+                              {"vendor": "kamstrup", "layout": "crc32-collision", "body": body, "frame": ce.apdu(body, dt12, True, b"\x00\x00\x00\x00"), "expect_body": {"active_power_import": ["int", a]}, "expect_frame": {"active_power_import": ["int", a]}})
+    ctx.case("crc32collision", True, 4)
 
 
 def run(shard, ctx):
     if shard.get("kind") == "threads":
+        if shard.get("rounds"):
+            crc32_collision(ctx)
         for _ in range(shard["rounds"]):
             dlms_common.run_threads(ID, dlms_gen.kamstrup_case, ctx)
         return
